@@ -732,6 +732,9 @@ class Exec(Sym):
         self.store = {}
         self.returns = []
         self.tolerant = tolerant
+        # resolved callee -> pseudo field: `x.setter(v)` on a local x is recorded as a store of v to x.<pseudo field>
+        # (a setter without argument stores the literal given as the second element)
+        self.setters = {}
 
     def havoc_loop(self, loop):
         pushed = []
@@ -877,6 +880,11 @@ class Exec(Sym):
             elif lid is not None and c.endswith("String::push_str"):
                 cur = self.store.get(lid, ("var", "?"))
                 self.store[lid] = str_append(cur, ("s", self.sym(st0["args"][0], d)))
+            elif c in self.setters:
+                fld, const = self.setters[c]
+                r0 = strip(st0["recv"])
+                if r0.get("k") == "Path" and r0["to"].get("res") == "local":
+                    self.store[("fieldstore", r0["to"]["name"], fld)] = const if const is not None else self.sym(st0["args"][0], d)
             else:
                 pass  # effect-free for our summaries (checked by the caller's anchors)
         elif k == "Call" and self.inline_string_helper(st0, d):
@@ -1088,7 +1096,10 @@ def table_helpers(F):
     return out
 
 
-def fold(t, assume, discr=None, helpers=None):
+ITER_SRC = ("::into_iter", "::iter")
+
+
+def fold(t, assume, discr=None, helpers=None, evalcalls=None):
     """Constant folding of a normal form under assumptions.
     assume: dict normal-form -> normal-form (e.g. ("field",("var","self"),"owner") -> ("variant", "chess::Player::Black"))
     discr: dict variant path -> integer discriminant (for `as` casts of field-less enums)."""
@@ -1146,6 +1157,8 @@ def fold(t, assume, discr=None, helpers=None):
                         return ("lit", bool(x) and bool(y))
                     if op == "||":
                         return ("lit", bool(x) or bool(y))
+                    if isinstance(x, bool) and isinstance(y, bool) and op in ("|", "&", "^"):
+                        return ("lit", {"|": x or y, "&": x and y, "^": x != y}[op])
                     if isinstance(x, bool) or isinstance(y, bool):
                         raise TypeError
                     if isinstance(x, int) and isinstance(y, int):
@@ -1245,6 +1258,72 @@ def fold(t, assume, discr=None, helpers=None):
                 pname, body = helpers[t[1]]
                 return f(subst(body, {("var", pname): args[0]}))
             ck = _callee_key(t[1])
+            if evalcalls and isinstance(t[1], str) and t[1] in evalcalls:
+                r_ = evalcalls[t[1]](args)
+                if r_ is not None:
+                    return f(r_) if r_ != ("call", t[1], args) else r_
+            # finite iterators over literal arrays: [a, b].into_iter().map/filter_map/filter(..).any/all(..)
+            if isinstance(t[1], str) and args:
+                def app_(clo, *xs):
+                    if isinstance(clo, tuple) and clo and clo[0] == "closure" and len(clo[1]) == len(xs):
+                        return f(subst(clo[2], {("var", nm): x for nm, x in zip(clo[1], xs)}))
+                    if isinstance(clo, tuple) and len(clo) == 2 and clo[0] == "def":
+                        return f(("call", clo[1], tuple(xs)))
+                    return None
+                a0 = args[0]
+                if t[1].endswith(ITER_SRC) and len(args) == 1 and a0[0] == "arr":
+                    return ("iter",) + tuple(a0[1:])
+                if a0[0] == "iter" and "Iterator" in t[1]:
+                    meth = t[1].rsplit("::", 1)[-1]
+                    els = a0[1:]
+                    if meth == "map" and len(args) == 2:
+                        r_ = [app_(args[1], e) for e in els]
+                        if None not in r_:
+                            return ("iter",) + tuple(r_)
+                    if meth in ("filter_map", "flat_map") and len(args) == 2:
+                        out_ = []
+                        ok_ = True
+                        for e in els:
+                            v_ = app_(args[1], e)
+                            if v_ is None:
+                                ok_ = False
+                                break
+                            if v_[0] == "variant" and str(v_[1]).endswith("::None"):
+                                continue
+                            if v_[0] == "ctor" and str(v_[1]).endswith("::Some"):
+                                out_.append(v_[2][0])
+                                continue
+                            ok_ = False
+                            break
+                        if ok_:
+                            return ("iter",) + tuple(out_)
+                    if meth == "filter" and len(args) == 2:
+                        out_ = []
+                        ok_ = True
+                        for e in els:
+                            v_ = app_(args[1], e)
+                            if v_ == ("lit", True):
+                                out_.append(e)
+                            elif v_ != ("lit", False):
+                                ok_ = False
+                                break
+                        if ok_:
+                            return ("iter",) + tuple(out_)
+                    if meth in ("any", "all") and len(args) == 2:
+                        acc = ("lit", meth == "all")
+                        ok_ = True
+                        for e in els:
+                            v_ = app_(args[1], e)
+                            if v_ is None:
+                                ok_ = False
+                                break
+                            acc = f(("bin", "||" if meth == "any" else "&&", acc, v_))
+                        if ok_:
+                            return acc
+                    if meth in ("copied", "cloned", "into_iter", "by_ref", "rev") and len(args) == 1:
+                        return a0 if meth != "rev" else ("iter",) + tuple(reversed(els))
+                    if meth == "count" and len(args) == 1:
+                        return ("lit", len(els))
             if ck in CHAR_FNS and args and args[0][0] == "lit" and isinstance(args[0][1], str):
                 return ("lit", CHAR_FNS[ck](args[0][1]))
             if ck in BOOL_CHAR_FNS and args and args[0][0] == "lit" and isinstance(args[0][1], str):
